@@ -164,6 +164,120 @@ theorem lookupImpl_spec (P : Zone.Rrset → Prop) (sbc : Bool) :
             | mk wr wc g1 g2 => exact g1
           | none => exact ⟨by simp, fun _ _ h => (by cases h), fun _ _ h => by cases h⟩
 
+/-! ### zones built through `HashMapTreeZone::add` only hold non-empty RRsets -/
+
+theorem rrsetsAdd_nonempty (eqv : Zone.Eqv) (cls t ttl : Nat) (rd : Zone.Rdata) :
+    ∀ (rrsets res : List Zone.Rrset), (∀ r ∈ rrsets, r.rdatas ≠ []) →
+      Zone.rrsetsAdd eqv cls t ttl rd rrsets = .ok res → ∀ r ∈ res, r.rdatas ≠ [] := by
+  intro rrsets
+  induction rrsets with
+  | nil =>
+    intro res _ h r hr
+    simp only [Zone.rrsetsAdd] at h
+    cases h; simp at hr; subst hr; simp
+  | cons s rest ih =>
+    intro res hne h r hr
+    simp only [Zone.rrsetsAdd] at h
+    split at h
+    · split at h
+      · cases h
+      · cases h
+        simp only [List.mem_cons] at hr
+        rcases hr with rfl | hr
+        · simp only [Zone.rdataInsert]
+          split
+          · exact hne s (by simp)
+          · simp
+        · exact hne r (by simp [hr])
+    · split at h
+      · cases h
+        simp only [List.mem_cons] at hr
+        rcases hr with rfl | rfl | hr
+        · simp
+        · exact hne _ (by simp)
+        · exact hne r (by simp [hr])
+      · cases hrec : Zone.rrsetsAdd eqv cls t ttl rd rest with
+        | error e => rw [hrec] at h; cases h
+        | ok r' =>
+          rw [hrec] at h
+          cases h
+          simp only [List.mem_cons] at hr
+          rcases hr with rfl | hr
+          · exact hne _ (by simp)
+          · exact ih r' (fun x hx => hne x (by simp [hx])) hrec r hr
+
+theorem childSet_mem (children : List (NameL.Label × Zone.Node)) (l : NameL.Label) (n : Zone.Node)
+    (k : NameL.Label) (c : Zone.Node) (h : (k, c) ∈ Zone.childSet children l n) :
+    c = n ∨ (k, c) ∈ children := by
+  induction children with
+  | nil => simp [Zone.childSet] at h; exact Or.inl h.2
+  | cons kv rest ih =>
+    obtain ⟨k', v'⟩ := kv
+    simp only [Zone.childSet] at h
+    split at h
+    · simp only [List.mem_cons, Prod.mk.injEq] at h
+      rcases h with ⟨_, rfl⟩ | h
+      · exact Or.inl rfl
+      · exact Or.inr (by simp [h])
+    · simp only [List.mem_cons, Prod.mk.injEq] at h
+      rcases h with ⟨rfl, rfl⟩ | h
+      · exact Or.inr (by simp)
+      · rcases ih h with h | h
+        · exact Or.inl h
+        · exact Or.inr (by simp [h])
+
+theorem nodeOK_empty (P : Zone.Rrset → Prop) : NodeOK P Zone.Node.empty :=
+  NodeOK.mk _ _ (fun _ h => by cases h) (fun _ _ h => by cases h)
+
+theorem addAt_nodeOK (eqv : Zone.Eqv) (cls t ttl : Nat) (rd : Zone.Rdata) :
+    ∀ (path : List NameL.Label) (node : Zone.Node), NodeOK (fun r => r.rdatas ≠ []) node →
+      NodeOK (fun r => r.rdatas ≠ []) (Zone.addAt eqv cls t ttl rd node path).1 := by
+  intro path
+  induction path with
+  | nil =>
+    intro node hok
+    cases hok with
+    | mk rrsets children h1 h2 =>
+      simp only [Zone.addAt]
+      cases hr : Zone.rrsetsAdd eqv cls t ttl rd rrsets with
+      | ok rr' => exact NodeOK.mk _ _ (rrsetsAdd_nonempty eqv cls t ttl rd rrsets rr' h1 hr) h2
+      | error e => exact NodeOK.mk _ _ h1 h2
+  | cons l rest ih =>
+    intro node hok
+    cases hok with
+    | mk rrsets children h1 h2 =>
+      simp only [Zone.addAt]
+      refine NodeOK.mk _ _ h1 (fun k c hc => ?_)
+      rcases childSet_mem _ _ _ _ _ hc with rfl | hc
+      · apply ih
+        cases hg : Zone.childGet children l with
+        | none => exact nodeOK_empty _
+        | some sub =>
+          obtain ⟨k', hk'⟩ := childGet_mem _ _ _ hg
+          exact h2 k' sub hk'
+      · exact h2 k c hc
+
+theorem build_nodeOK (eqv : Zone.Eqv) (apex : NameL.Name) (cls : Nat) (glue : Zone.GluePolicy)
+    (rs : List Zone.Rec) :
+    NodeOK (fun r => r.rdatas ≠ []) (Zone.build eqv (Zone.Zone.new apex cls glue) rs).root := by
+  unfold Zone.build
+  have : ∀ (rs : List Zone.Rec) (z : Zone.Zone), NodeOK (fun r => r.rdatas ≠ []) z.root →
+      NodeOK (fun r => r.rdatas ≠ []) (rs.foldl (fun z r => (Zone.addM eqv z r).1) z).root := by
+    intro rs
+    induction rs with
+    | nil => intro z h; exact h
+    | cons r rest ih =>
+      intro z h
+      apply ih
+      unfold Zone.addM
+      dsimp only
+      split
+      · exact h
+      · split
+        · exact h
+        · exact addAt_nodeOK eqv _ _ _ _ _ _ h
+  exact this rs _ (nodeOK_empty _)
+
 /-- what the handler relies on in a zone: the apex is a name, no stored RRset is empty
     (`RdataSetOwned` is never empty) -/
 structure ZoneOK (z : Zone.Zone) : Prop where
